@@ -19,7 +19,7 @@ REPO = Path('/repo')
 
 
 def implemented():
-    return sorted(p.stem.upper() for p in (VERIF / 'sa' / 'props').glob('c*.py'))
+    return sorted(p.stem.upper() for p in (VERIF / 'sa' / 'props').glob('c[0-9][0-9].py'))
 
 
 def run_seed(name: str, props: list[str] | None):
